@@ -211,6 +211,20 @@ func vh_uuid_minmax() {
 
 // Two generations whose clock-sequence counters differ by 1 <= d < 2^14 yield different UUIDs,
 // for any two instants (the atomic add gives distinct calls distinct counter values).
+// vAddResults: what successive atomic.AddUint32 calls return. Distinct calls of an atomic add observe
+// distinct counter values (here: they differ by d, 1 <= d < 2^14, i.e. fewer than 2^14 generations in between);
+// that is the only thing the environment promises - the generator must get its uniqueness from it.
+var vAddResults []uint32
+
+func vstubAddU32(addr *uint32, delta uint32) uint32 {
+	if len(vAddResults) == 0 {
+		return vU32("further_add")
+	}
+	r := vAddResults[0]
+	vAddResults = vAddResults[1:]
+	return r
+}
+
 func vh_uuid_unique() {
 	s1, n1, s2, n2 := vI64("s1"), vI64("n1"), vI64("s2"), vI64("n2")
 	lim := timeBase + (1<<60)/vTicksPerSec - 1
@@ -220,9 +234,9 @@ func vh_uuid_unique() {
 	c0 := vU32("c0")
 	d := vU32("d")
 	vAssume(d >= 1 && d < 1<<14)
-	clockSeq = c0
+	clockSeq = vU32("counter_as_other_generators_left_it")
+	vAddResults = []uint32{c0, c0 + d}
 	a := UUIDFromTime(time.Unix(s1, n1))
-	clockSeq = c0 + d
 	b := UUIDFromTime(time.Unix(s2, n2))
 	vAssert(a != b, "C19/unique/distinct")
 	vObserve("a9", a[9])
